@@ -23,6 +23,7 @@ import (
 	"path/filepath"
 	"sort"
 	"strings"
+	"time"
 
 	"golang.org/x/tools/go/ssa"
 )
@@ -385,10 +386,11 @@ func (cb *concreteBuilder) buildModel(kind string, m map[string]interface{}, ty 
 }
 
 type groundEval struct {
-	w      *World
-	dom    int64
-	budget int
-	memo   map[*Term]*Term
+	w        *World
+	dom      int64
+	budget   int
+	memo     map[*Term]*Term
+	deadline time.Time // evaluation of one record gives up (undetermined) after this
 }
 
 // eval folds a closed formula over concrete data: quantifiers are expanded over a finite
@@ -402,6 +404,10 @@ func (g *groundEval) eval(t *Term) *Term {
 	}
 	g.budget--
 	if g.budget < 0 {
+		return t
+	}
+	if g.budget&1023 == 0 && !g.deadline.IsZero() && time.Now().After(g.deadline) {
+		g.budget = -1
 		return t
 	}
 	var r *Term
@@ -843,7 +849,11 @@ func (w *World) witnessFor(fs *FuncSpec, model map[string]string, repo string, n
 	sc := bufio.NewScanner(f)
 	sc.Buffer(make([]byte, 1<<20), 1<<26)
 	tried, admissible := 0, 0
+	stopAt := time.Now().Add(75 * time.Second) // the concrete search only attaches inputs: bounded effort
 	for sc.Scan() {
+		if time.Now().After(stopAt) {
+			break
+		}
 		var rec map[string]interface{}
 		if json.Unmarshal(sc.Bytes(), &rec) != nil {
 			continue
@@ -899,7 +909,7 @@ func (w *World) checkRecord(fi *FuncInfo, fs *FuncSpec, rec map[string]interface
 	w.initPhase = true // concrete tables are not needed; invariants are not assumed
 	w.concreteMode = true
 	defer func() { w.concreteMode = false }()
-	ge := &groundEval{w: w, dom: 330, budget: 400000, memo: map[*Term]*Term{}}
+	ge := &groundEval{w: w, dom: 330, budget: 400000, memo: map[*Term]*Term{}, deadline: time.Now().Add(3 * time.Second)}
 	pre := x.funcEnv(fi, "pre", old, nil, args, nil)
 	for _, c := range fs.Clauses {
 		if c.Kind != "requires" {
